@@ -174,7 +174,8 @@ static void on_prog (VProg * vp, void *user)
  * f free the oldest kept code                        r compile+run+free program A (sse)
  * x failed compile (no rule: float on mmx)           z fatal compile (size mismatch)
  * n compile A for neon, free                         h application heap traffic
- * g every opcode compiled for sse/avx/mmx under the smallest flag set   d the same under the default flags */
+ * g every opcode compiled for sse/avx/mmx under the smallest flag set   d the same under the default flags
+ * k every scalar-operand opcode compiled for every target with operand 0 / width-1 / width */
 static OrcProgram *hprog (int k)
 {
   OrcProgram *p;
@@ -221,6 +222,25 @@ static void apply_history (const char *h)
       case 'z': p = hprog (3); orc_program_compile (p); orc_program_free (p); break;
       case 'n': p = hprog (1); orc_program_compile_for_target (p, orc_target_get_by_name ("neon")); orc_program_free (p); break;
       case 'h': poison_heap (); break;
+      case 'k': {
+        /* every opcode with a scalar operand compiled for every registered target with the special operand values
+         * (0, 1 less than the element width in bits, the width itself): the values back ends have separate paths for */
+        int oi, t, vi;
+        for (t = NT - 1; t >= 0; t--) for (oi = 0; oi < v_nops; oi++) for (vi = 0; vi < 3; vi++) {
+          const OrcStaticOpcode *o = &v_ops[oi];
+          int d1, s1, c1;
+          if (!targets[t] || !(o->flags & ORC_STATIC_OPCODE_SCALAR) || op_nsrc (o) != 2 || o->dest_size[1]) continue;
+          p = orc_program_new ();
+          orc_program_set_name (p, "hist_scalar");
+          d1 = orc_program_add_destination (p, o->dest_size[0], "d1");
+          s1 = orc_program_add_source (p, o->src_size[0], "s1");
+          c1 = orc_program_add_constant (p, o->src_size[1], vi == 0 ? 0 : vi == 1 ? 8 * o->src_size[0] - 1 : 8 * o->src_size[0], "c1");
+          orc_program_append_2 (p, o->name, 0, d1, s1, c1, -1);
+          orc_program_compile_for_target (p, targets[t]);
+          orc_program_free (p);
+        }
+        break;
+      }
       case 'g': case 'd': {
         /* every opcode of the sys set compiled once for the three x86 back ends: g under the smallest flag set of the
          * target, d under its default flags; freed at once */
